@@ -8,6 +8,7 @@ package props
 
 import (
 	"context"
+	"errors"
 	"fmt"
 	"os"
 	"strings"
@@ -25,6 +26,7 @@ import (
 type wcWaiter struct {
 	id       int
 	kind     string
+	ctx      context.Context
 	op       *vkit.Op
 	cancel   context.CancelFunc
 	deadline time.Time
@@ -122,6 +124,9 @@ func TestWaitCondStep(t *testing.T) {
 							if !w.ctxDone {
 								fail("C05/error-without-cancel", "WaitCond (waiter %d, ctx %s) returned %v although its context is live", w.id, w.kind, err)
 							}
+							if w.ctx != nil && err != w.ctx.Err() {
+								fail("C05/not-the-contexts-error", "WaitCond (waiter %d, ctx %s) returned %v; the context's error is %v", w.id, w.kind, err, w.ctx.Err())
+							}
 						}
 						tr("w%d=%v", w.id, err)
 						continue
@@ -131,7 +136,7 @@ func TestWaitCondStep(t *testing.T) {
 					}
 				}
 			}
-			start := func(kind string, d time.Duration) {
+			start := func(kind string, d time.Duration, withCause bool) {
 				w := &wcWaiter{id: len(waiters), kind: kind, lastEval: -1}
 				var ctx context.Context
 				switch kind {
@@ -140,16 +145,26 @@ func TestWaitCondStep(t *testing.T) {
 					ctx = context.Background()
 					bgWaiter = true
 				case "cancellable":
-					ctx, w.cancel = context.WithCancel(context.Background())
+					if withCause {
+						c, cf := context.WithCancelCause(context.Background())
+						ctx, w.cancel = c, func() { cf(errors.New("waitcond: a cause, not the context's error")) }
+					} else {
+						ctx, w.cancel = context.WithCancel(context.Background())
+					}
 				case "cancelled":
 					var c context.CancelFunc
 					ctx, c = context.WithCancel(context.Background())
 					c()
 					w.ctxDone = true
 				case "deadline":
-					ctx, w.cancel = context.WithTimeout(context.Background(), d)
+					if withCause {
+						ctx, w.cancel = context.WithTimeoutCause(context.Background(), d, errors.New("waitcond: the deadline's cause, not the context's error"))
+					} else {
+						ctx, w.cancel = context.WithTimeout(context.Background(), d)
+					}
 					w.deadline, w.hasDL = time.Now().Add(d), true
 				}
+				w.ctx = ctx
 				w.watcher = kind == "background" || kind == "cancellable" || kind == "deadline"
 				w.fresh = true
 				waiters = append(waiters, w)
@@ -179,7 +194,7 @@ func TestWaitCondStep(t *testing.T) {
 						t.Skip("enough")
 					}
 					kind := rapid.SampledFrom([]string{"nil", "background", "cancellable", "cancellable", "cancelled", "deadline"}).Draw(t, "kind")
-					start(kind, time.Duration(rapid.IntRange(1, 5).Draw(t, "dl"))*time.Millisecond)
+					start(kind, time.Duration(rapid.IntRange(1, 5).Draw(t, "dl"))*time.Millisecond, rapid.IntRange(0, 2).Draw(t, "withCause") == 0)
 				},
 				"set": func(t *rapid.T) {
 					v := rapid.Bool().Draw(t, "v")
